@@ -279,6 +279,21 @@ def edge_cover(init, adj, rnd, max_paths=None, max_len=400, targets=None):
     return paths, total, total - len(uncovered)
 
 
+def pair_graph(init, adj):
+    """Line graph of a state graph: its nodes are the edges, so that an edge cover of it walks every pair of
+    consecutive transitions (2-switch coverage). Labels are kept, a path of it is a schedule as before."""
+    root = ("INIT",)
+    adj2 = {root: [(lab, (init, lab, v)) for lab, v in adj.get(init, [])]}
+    todo = [n for _, n in adj2[root]]
+    while todo:
+        e = todo.pop()
+        if e in adj2:
+            continue
+        adj2[e] = [(lab, (e[2], lab, w)) for lab, w in adj.get(e[2], [])]
+        todo.extend(n for _, n in adj2[e] if n not in adj2)
+    return root, adj2
+
+
 # ---------------------------------------------------------------- Go driver
 GOENV = {"GOFLAGS": "-mod=mod", "GOPROXY": "off", "GOSUMDB": "off", "GOTOOLCHAIN": "local"}
 
